@@ -2,9 +2,16 @@ package main
 
 import (
 	"bytes"
+	"context"
+	crand "crypto/rand"
+	"crypto/sha1"
 	"fmt"
+	"net"
 	"sync"
 	"time"
+
+	"github.com/gopcua/opcua/uacp"
+	"verifharness/keys"
 
 	"github.com/gopcua/opcua/ua"
 	"github.com/gopcua/opcua/uasc"
@@ -53,12 +60,16 @@ func (r *rec) keepBody(body any) {
 }
 
 type ACase struct {
-	N        int   `json:"n"`
+	N        int    `json:"n"`
 	Prop     string `json:"prop"`
-	Channels []Beh `json:"channels"`
+	Kind     string `json:"kind,omitempty"` // "endpoints": a delivered GetEndpointsResponse configures another channel
+	Channels []Beh  `json:"channels"`
 }
 
 func runAlias(c *ACase) runResult {
+	if c.Kind == "endpoints" {
+		return runAliasEndpoints(c)
+	}
 	type chres struct {
 		err     string
 		changed []string
@@ -160,4 +171,164 @@ func runAlias(c *ACase) runResult {
 		multi += r.multi
 	}
 	return runResult{status: "ok", obs: map[string]any{"channels": len(res), "messages_compared": total, "multi_chunk": multi}}
+}
+
+// ---- C20: a delivered GetEndpointsResponse used to configure another channel -----------------
+//
+// The documented way to set up a secured client is GetEndpoints on a discovery connection and then
+// RemoteCertificate(ep.ServerCertificate): the new channel's configuration holds a byte string of a
+// delivered message.  Traffic on the new connection (its OPN exchange, with a sender certificate
+// that differs from the advertised one: another certificate, a certificate chain) must not change
+// the message delivered earlier.
+func runAliasEndpoints(c *ACase) runResult {
+	pol, mode := "Basic256Sha256", "Sign"
+	if len(c.Channels) > 0 {
+		pol, mode = c.Channels[0].Policy, c.Channels[0].Mode
+	}
+	if pol == "None" {
+		pol, mode = "Basic256Sha256", "SignAndEncrypt"
+	}
+	// 1. discovery connection: a real channel delivers a GetEndpointsResponse to the client side
+	g, err := openRig(rigOpts{Policy: "None", Mode: "None", Side: "client"})
+	if err != nil {
+		return runResult{status: "inconclusive", detail: "open: " + err.Error()}
+	}
+	defer g.close()
+	g.r.mu.Lock()
+	g.r.keep = true
+	g.r.mu.Unlock()
+	adv := keys.Get("2048a") // the certificate the endpoints advertise
+	var eps []*ua.EndpointDescription
+	for i := 0; i < 3; i++ {
+		eps = append(eps, &ua.EndpointDescription{
+			EndpointURL: fmt.Sprintf("opc.tcp://127.0.0.1:4840/%d", i), Server: &ua.ApplicationDescription{ApplicationName: &ua.LocalizedText{}, DiscoveryURLs: []string{}},
+			ServerCertificate: append([]byte(nil), adv.Cert...), SecurityMode: chanpairMode(mode), SecurityPolicyURI: ua.FormatSecurityPolicyURI(pol),
+			UserIdentityTokens: []*ua.UserTokenPolicy{}, TransportProfileURI: "http://opcfoundation.org/UA-Profile/Transport/uatcp-uasc-uabinary", SecurityLevel: uint8(i)})
+	}
+	ctx, cancel := context.WithTimeout(context.Background(), 30*time.Second)
+	defer cancel()
+	if err := g.p.Server.SendResponseWithContext(ctx, 4711, &ua.GetEndpointsResponse{ResponseHeader: respHeader(4711), Endpoints: eps}); err != nil {
+		return runResult{status: "inconclusive", detail: "send endpoints: " + err.Error()}
+	}
+	if !g.r.waitFor(func(evs []Ev) bool {
+		for _, e := range evs {
+			if e.Ev == "ret" && e.Dig == "*ua.GetEndpointsResponse" {
+				return true
+			}
+		}
+		return false
+	}, 15*time.Second) {
+		return runResult{status: "inconclusive", detail: "GetEndpointsResponse not delivered"}
+	}
+	g.r.mu.Lock()
+	var got *ua.GetEndpointsResponse
+	var snap []byte
+	for _, k := range g.r.kept {
+		if r, ok := k.body.(*ua.GetEndpointsResponse); ok {
+			got, snap = r, k.encoded
+		}
+	}
+	g.r.mu.Unlock()
+	if got == nil || len(got.Endpoints) != 3 {
+		return runResult{status: "inconclusive", detail: "delivered GetEndpointsResponse not kept"}
+	}
+	// 2. a new connection configured from the delivered message; the peer answers the OPN request with
+	//    OPN chunks whose sender certificate is another one / the advertised one followed by an issuer
+	other := keys.Get("2048b")
+	chain := append(append([]byte(nil), adv.Cert...), other.Cert...)
+	var log []string
+	for i, sender := range [][]byte{other.Cert, chain, keys.Get("4096a").Cert} {
+		if err := openWithForeignCert(pol, mode, got.Endpoints[0].ServerCertificate, sender); err != nil {
+			return runResult{status: "inconclusive", detail: err.Error()}
+		}
+		enc, err := ua.Encode(got)
+		switch {
+		case err != nil:
+			return runResult{status: "violation", key: "c20:delivered-message-changed", detail: fmt.Sprintf("the delivered GetEndpointsResponse no longer encodes after an OPN exchange on another connection: %v", err)}
+		case !bytes.Equal(enc, snap):
+			return runResult{status: "violation", key: "c20:delivered-message-changed",
+				detail: fmt.Sprintf("the GetEndpointsResponse delivered on the discovery connection changed after an OPN chunk (sender certificate #%d, %d bytes, advertised %d bytes) arrived on another connection configured with Endpoints[0].ServerCertificate", i, len(sender), len(adv.Cert))}
+		}
+		log = append(log, fmt.Sprintf("sender certificate #%d (%d bytes): delivered message unchanged", i, len(sender)))
+	}
+	return runResult{status: "ok", obs: map[string]any{"log": log, "messages_compared": 3}}
+}
+
+func respHeader(h uint32) *ua.ResponseHeader {
+	return &ua.ResponseHeader{Timestamp: time.Now(), RequestHandle: h, ServiceDiagnostics: &ua.DiagnosticInfo{}, StringTable: []string{}, AdditionalHeader: ua.NewExtensionObject(nil)}
+}
+
+func chanpairMode(m string) ua.MessageSecurityMode {
+	switch m {
+	case "Sign":
+		return ua.MessageSecurityModeSign
+	case "SignAndEncrypt":
+		return ua.MessageSecurityModeSignAndEncrypt
+	}
+	return ua.MessageSecurityModeNone
+}
+
+// openWithForeignCert: a client channel whose RemoteCertificate is remoteCert (not copied) opens against
+// a scripted peer that answers the OPN request with an OPN chunk carrying senderCert and a random body.
+func openWithForeignCert(pol, mode string, remoteCert, senderCert []byte) error {
+	l, err := net.Listen("tcp", "127.0.0.1:0")
+	if err != nil {
+		return err
+	}
+	port := l.Addr().(*net.TCPAddr).Port
+	l.Close()
+	ep := fmt.Sprintf("opc.tcp://127.0.0.1:%d", port)
+	ctx, cancel := context.WithTimeout(context.Background(), 30*time.Second)
+	defer cancel()
+	ack := &uacp.Acknowledge{ReceiveBufSize: 65535, SendBufSize: 65535, MaxChunkCount: 512, MaxMessageSize: 2 << 20}
+	ln, err := uacp.Listen(ctx, ep, ack)
+	if err != nil {
+		return fmt.Errorf("listen: %w", err)
+	}
+	defer ln.Close()
+	type acc struct {
+		c   *uacp.Conn
+		err error
+	}
+	ach := make(chan acc, 1)
+	go func() { c, err := ln.Accept(ctx); ach <- acc{c, err} }()
+	cconn, err := (&uacp.Dialer{Dialer: &net.Dialer{Timeout: 5 * time.Second}}).Dial(ctx, ep)
+	if err != nil {
+		return fmt.Errorf("dial: %w", err)
+	}
+	defer cconn.Close()
+	a := <-ach
+	if a.err != nil {
+		return fmt.Errorf("accept: %w", a.err)
+	}
+	defer a.c.Close()
+	ck := keys.Get("2048a")
+	th := sha1.Sum(remoteCert)
+	cfg := &uasc.Config{SecurityPolicyURI: ua.FormatSecurityPolicyURI(pol), SecurityMode: chanpairMode(mode), Certificate: ck.Cert, LocalKey: ck.Key,
+		RemoteCertificate: remoteCert, Thumbprint: th[:], Lifetime: 3600000, RequestTimeout: 600 * time.Millisecond}
+	cl, err := uasc.NewSecureChannel(ep, cconn, cfg, make(chan error, 16))
+	if err != nil {
+		return fmt.Errorf("client channel: %w", err)
+	}
+	done := make(chan error, 1)
+	go func() {
+		octx, ocancel := context.WithTimeout(ctx, 8*time.Second)
+		defer ocancel()
+		done <- cl.Open(octx)
+	}()
+	a.c.SetReadDeadline(time.Now().Add(10 * time.Second))
+	if _, err := a.c.Receive(); err != nil {
+		return fmt.Errorf("no OPN request: %w", err)
+	}
+	junk := make([]byte, 256)
+	crand.Read(junk)
+	fr := rawFrame("OPN", 'F', cat(le32(7), uaBytes([]byte(ua.FormatSecurityPolicyURI(pol))), uaBytes(senderCert), uaBytes(th[:]), junk))
+	a.c.SetWriteDeadline(time.Now().Add(5 * time.Second))
+	a.c.Write(fr)
+	select {
+	case <-done:
+	case <-time.After(20 * time.Second):
+	}
+	go cl.Close()
+	return nil
 }
